@@ -21,6 +21,7 @@ import (
 	"pgregory.net/rapid"
 
 	"github.com/foxboron/go-uefi/authenticode"
+	"github.com/foxboron/go-uefi/efi"
 	"github.com/foxboron/go-uefi/efi/attributes"
 	efifs "github.com/foxboron/go-uefi/efi/fs"
 	"github.com/foxboron/go-uefi/efi/signature"
@@ -59,13 +60,30 @@ type faultReaderAt struct {
 	data   []byte
 	calls  int
 	failAt int
-	kind   string // error | short | sticky
+	kind   string // error | short | sticky | short_eof
 	fired  bool
 }
 
 func (f *faultReaderAt) ReadAt(p []byte, off int64) (int, error) {
 	f.calls++
 	if f.failAt > 0 && (f.calls == f.failAt || (f.kind == "sticky" && f.calls >= f.failAt)) {
+		if f.kind == "short_eof" {
+			// the file ends earlier than it did a moment ago (truncated underneath the reader): fewer bytes than a
+			// healthy read would deliver here, and io.EOF. Where a healthy read would deliver one byte or none there
+			// is nothing to take away, and the call is not a fault.
+			legit := 0
+			if off < int64(len(f.data)) {
+				legit = copy(p, f.data[off:])
+			}
+			if legit < 2 {
+				if legit < len(p) {
+					return legit, io.EOF
+				}
+				return legit, nil
+			}
+			f.fired = true
+			return legit / 2, io.EOF
+		}
 		f.fired = true
 		if f.kind == "short" && len(p) > 1 && off < int64(len(f.data)) {
 			n := copy(p[:len(p)/2], f.data[off:])
@@ -266,8 +284,11 @@ func checkCase(c Case) error {
 		nVerify := base.calls - nParse - nHash - nSign
 		signed := bin.Bytes()
 		points = append(points, tally{"Parse/reader", nParse}, tally{"Hash/reader", nHash}, tally{"Sign/reader", nSign}, tally{"Verify/reader", nVerify})
-		for _, kind := range []string{"error", "short", "sticky"} {
-			for k := 1; k <= nParse; k++ {
+		for _, kind := range []string{"error", "short", "sticky", "short_eof"} {
+			// While Parse reads, a premature end of file is not a failure it could recognise: it reads the tail of the
+			// file until EOF, and a reader that says EOF earlier simply is a shorter file. The short_eof kind therefore
+			// applies to the operations after Parse, where the sizes are known.
+			for k := 1; k <= nParse && kind != "short_eof"; k++ {
 				fault("Parse/reader", k, kind)
 				r := &faultReaderAt{data: img, failAt: k, kind: kind}
 				p, err := authenticode.Parse(r)
@@ -284,7 +305,7 @@ func checkCase(c Case) error {
 			if _, err := authenticode.Parse(sb); err != nil {
 				return fmt.Errorf("bad case: Parse of the signed image: %v", err)
 			}
-			for k := 1; k <= sb.calls; k++ {
+			for k := 1; k <= sb.calls && kind != "short_eof"; k++ {
 				fault("Parse(signed)/reader", k, kind)
 				r := &faultReaderAt{data: signed, failAt: k, kind: kind}
 				p, err := authenticode.Parse(r)
@@ -437,6 +458,25 @@ func checkCase(c Case) error {
 				got, err = e.Getdb()
 			default:
 				got, err = e.Getdbx()
+			}
+			return err != nil || (got != nil && bytes.Equal(got.Bytes(), c.Payload)), err
+		}},
+		{"legacy typed getter", false, func(rec *recfs.FS) (bool, error) {
+			saved, savedDir := efifs.Fs, attributes.Efivars
+			efifs.SetFS(rec)
+			attributes.Efivars = "/sys/firmware/efi/efivars"
+			defer func() { efifs.SetFS(saved); attributes.Efivars = savedDir }()
+			var got *signature.SignatureDatabase
+			var err error
+			switch c.Var % 4 {
+			case 0:
+				got, err = efi.GetPK()
+			case 1:
+				got, err = efi.GetKEK()
+			case 2:
+				got, err = efi.Getdb()
+			default:
+				got, err = efi.Getdbx()
 			}
 			return err != nil || (got != nil && bytes.Equal(got.Bytes(), c.Payload)), err
 		}},
